@@ -77,7 +77,44 @@ type world17 struct {
 
 func genPixels(r *kit.RNG, w, h int, bilevel bool) [][]byte {
 	px := make([][]byte, h)
-	style := r.Intn(4)
+	style := r.Intn(6)
+	if style >= 4 {
+		// large solid regions: a background with a few big rectangles, some
+		// touching the image edges (whole 8x8 blocks of one colour, solid black
+		// areas several blocks wide, an all-black or all-white image)
+		bg, fg := byte(255), byte(0)
+		if r.Bool() {
+			bg, fg = 0, 255
+		}
+		if !bilevel {
+			bg, fg = byte(200+r.Intn(56)), byte(r.Intn(40))
+		}
+		for y := range px {
+			px[y] = make([]byte, w)
+			for x := range px[y] {
+				px[y][x] = bg
+			}
+		}
+		for k, n := 0, r.Intn(4); k < n; k++ {
+			x0, y0 := r.Intn(w), r.Intn(h)
+			if r.Bool() {
+				x0 = 0
+			}
+			if r.Bool() {
+				y0 = 0
+			}
+			x1, y1 := x0+r.Range(1, w-x0), y0+r.Range(1, h-y0)
+			if r.Chance(1, 3) {
+				x1, y1 = w, h
+			}
+			for y := y0; y < y1; y++ {
+				for x := x0; x < x1; x++ {
+					px[y][x] = fg
+				}
+			}
+		}
+		return px
+	}
 	for y := range px {
 		px[y] = make([]byte, w)
 		for x := range px[y] {
